@@ -22,8 +22,16 @@ def pick_weighted(rng, pairs):
     return pairs[-1][0]
 
 
+SPECIAL_COMPS = ['seg=0', 'seg=255', 'seg=256', 'v=1', 'v=65536', 't=1700000000000', 'off=0', 'seq=7', '32=meta', '%00', '%C3%A9',
+                 'x%2Fy', '65535=zz', 'KEY', '8=', 'a-b_c.d~e']
+
+
 def rand_name(rng, alphabet=('a', 'b', 'c'), lo=1, hi=3):
-    return [rng.choice(alphabet) for _ in range(rng.randint(lo, hi))]
+    name = [rng.choice(alphabet) for _ in range(rng.randint(lo, hi))]
+    if name and rng.random() < 0.12:
+        # typed / escaped / empty components now and then (as a suffix, so that names still collide and nest)
+        name[-1] = rng.choice(SPECIAL_COMPS)
+    return name
 
 
 def base_config(rng, faces=(('direct', 60), ('tcp', 20), ('unix', 5), ('udp', 15)), fe=None):
@@ -154,6 +162,9 @@ def add_consumer_side(b, rng, fe, n_int, focus='c03', lp_prob=0.1, transparent=F
         if fe == 'v1' and rng.random() < 0.15:
             vs = None
         rec = {'id': iid, 'name': name, 'cbp': cbp, 'life': life, 'te': te, 'vs': vs, 'digest_of': None}
+        signed = focus == 'c03' and rng.random() < 0.1
+        if signed:
+            rec['app_param'] = rng.choice([0, 1, 20])
         dl = te + life * 1000
         fate = pick_weighted(rng, [('data', 40), ('nack', 15), ('timeout', 12), ('cancel', 13),
                                    ('data_nomatch', 10), ('nothing', 10)])
@@ -181,7 +192,15 @@ def add_consumer_side(b, rng, fe, n_int, focus='c03', lp_prob=0.1, transparent=F
                 else:
                     dname = name[:-1] + ['zz']
             pid = b.pkt({'k': 'data', 'name': dname, 'content': 3 + b.next_pid, 'sig': rng.choice(['digest', 'digest', 'none'])})
-            if fate == 'data' and not cbp and rng.random() < 0.2:
+            if signed:
+                # Data for a parameterised Interest carries the Interest's full name (plus a suffix with CanBePrefix)
+                spec = b.packets[str(pid)]
+                spec['reply_to'] = iid
+                spec['name'] = dname[len(name):] if (fate == 'data' and len(dname) > len(name)) else ([] if fate == 'data' else ['zz'])
+                if fate == 'data_nomatch' and rng.random() < 0.5:
+                    spec.pop('reply_to')        # the plain name without the digest component: must not match
+                    spec['name'] = list(name)
+            if fate == 'data' and not cbp and not signed and rng.random() < 0.2:
                 # implicit digest: matching or (other content under the same name) not matching
                 if rng.random() < 0.6:
                     rec['digest_of'] = pid
@@ -196,6 +215,9 @@ def add_consumer_side(b, rng, fe, n_int, focus='c03', lp_prob=0.1, transparent=F
             if rng.random() < 0.3:
                 b.rx(tf + rng.choice([1, 2, 1000, life * 1000]), pid)
                 b.faults += 1
+        elif fate == 'nack' and signed:
+            ipid = b.pkt({'k': 'interest_as_sent', 'iid': iid})
+            b.rx(tf, ipid, lp={'nack': rng.choice(nack_reasons or [0, 50, 100, 150, 151])})
         elif fate == 'nack':
             if not cbp and rng.random() < 0.2:
                 # Interest carrying an implicit digest (of a Data that never arrives); the Nack names it in full
@@ -239,6 +261,8 @@ def add_consumer_side(b, rng, fe, n_int, focus='c03', lp_prob=0.1, transparent=F
         kw = {}
         if rec['digest_of'] is not None:
             kw['digest_of'] = rec['digest_of']
+        if rec.get('app_param') is not None:
+            kw['app_param'] = rec['app_param']
         b.op(rec['te'], 'express', id=rec['id'], name=rec['name'], cbp=rec['cbp'], lifetime=rec['life'],
              validator=rec['vs'], **kw)
     # fix nack packets of digest-carrying Interests
